@@ -453,6 +453,140 @@ def render_union() -> str:
     return "\n".join(lines)
 
 
+# ---------------------------------------------------------------------------------------------
+# ListValidator (koda_validate/list.py) -> Koda.LStmt (lean/KodaModel/PyList.lean)
+
+OUT_LIST = os.path.join(os.path.dirname(OUT), "ListSrc.lean")
+LVARS = {"coerced": "coerced", "coerced_val": "coercedVal", "list_errors": "listErrors", "return_list": "returnList",
+         "index_errs": "indexErrs", "i": "i", "item": "item", "is_valid": "isValid", "item_result": "itemResult",
+         "predicate_errors": "predicateErrors", "pred": "pred", "pred_async": "predAsync"}
+LSELF = {"coerce": "coerce", "predicates": "predicates", "predicates_async": "predicatesAsync",
+         "_disallow_synchronous": "disallowSync", "__class__": "cls", "_wrapped_item_validator_sync": "wrappedSync",
+         "_wrapped_item_validator_async": "wrappedAsync"}
+LATTRS = {"is_just": "isJust", "val": "valA", "compatible_types": "compatibleTypes"}
+LMETHS = {"__call__": "call", "validate_async": "validateAsync"}
+LCTORS = {"CoercionErr": ("mkCoercionErr", 2), "TypeErr": ("mkTypeErr", 1), "PredicateErrs": ("mkPredErrs", 1),
+          "IndexErrs": ("mkIndexErrs", 1), "Invalid": ("mkInvalid", 3), "_async_predicates_warning": ("warn", 1),
+          "enumerate": ("enumerate", 1)}
+
+
+class LTr:
+    def exp(self, e: ast.expr) -> str:
+        if isinstance(e, ast.Name):
+            if e.id == "self":
+                return ".self"
+            if e.id == "val":
+                return ".val"
+            if e.id == "list":
+                return ".listTy"
+            if e.id in LVARS:
+                return f"(.var .{LVARS[e.id]})"
+        if isinstance(e, ast.Constant) and isinstance(e.value, bool):
+            return f"(.bool {'true' if e.value else 'false'})"
+        if isinstance(e, ast.List) and not e.elts:
+            return ".emptyList"
+        if isinstance(e, ast.Dict) and not e.keys:
+            return ".emptyDict"
+        if isinstance(e, ast.Await):
+            return f"(.await {self.exp(e.value)})"
+        if isinstance(e, ast.Tuple) and len(e.elts) == 2:
+            return f"(.pair {self.exp(e.elts[0])} {self.exp(e.elts[1])})"
+        if isinstance(e, ast.NamedExpr) and isinstance(e.target, ast.Name) and e.target.id in LVARS:
+            return f"(.walrus .{LVARS[e.target.id]} {self.exp(e.value)})"
+        if isinstance(e, ast.UnaryOp) and isinstance(e.op, ast.Not):
+            return f"(.not {self.exp(e.operand)})"
+        if isinstance(e, ast.Compare) and len(e.ops) == 1:
+            l, r = e.left, e.comparators[0]
+            if (isinstance(e.ops[0], ast.Is) and isinstance(l, ast.Call) and isinstance(l.func, ast.Name) and l.func.id == "type"
+                    and len(l.args) == 1 and not l.keywords and isinstance(r, ast.Name) and r.id == "list"):
+                return f"(.typeIsList {self.exp(l.args[0])})"
+            if isinstance(e.ops[0], ast.IsNot) and isinstance(r, ast.Constant) and r.value is None:
+                return f"(.isNotNone {self.exp(l)})"
+        if isinstance(e, ast.Attribute):
+            if isinstance(e.value, ast.Name) and e.value.id == "self":
+                a = f".{LSELF[e.attr]}" if e.attr in LSELF else f"(.other {lstr(e.attr)})"
+                return f"(.selfAttr {a})"
+            a = f".{LATTRS[e.attr]}" if e.attr in LATTRS else f"(.other {lstr(e.attr)})"
+            return f"(.attr {self.exp(e.value)} {a})"
+        if (isinstance(e, ast.ListComp) and len(e.generators) == 1 and not e.generators[0].is_async
+                and len(e.generators[0].ifs) == 1 and isinstance(e.generators[0].target, ast.Name)
+                and e.generators[0].target.id in LVARS):
+            g = e.generators[0]
+            return f"(.listComp {self.exp(e.elt)} .{LVARS[g.target.id]} {self.exp(g.iter)} {self.exp(g.ifs[0])})"
+        if isinstance(e, ast.Call) and not e.keywords and not any(isinstance(a, ast.Starred) for a in e.args):
+            f, args = e.func, e.args
+            if isinstance(f, ast.Name) and f.id in LCTORS and len(args) == LCTORS[f.id][1]:
+                return f"(.{LCTORS[f.id][0]} {' '.join(self.exp(a) for a in args)})"
+            if (isinstance(f, ast.Attribute) and f.attr in LMETHS and isinstance(f.value, ast.Name) and f.value.id in LVARS
+                    and len(args) == 1):
+                return f"(.meth {self.exp(f.value)} .{LMETHS[f.attr]} {self.exp(args[0])})"
+            if len(args) == 1 and not (isinstance(f, ast.Name) and f.id not in LVARS):
+                return f"(.call1 {self.exp(f)} {self.exp(args[0])})"
+        return f"(.unsupported {lstr(ast.dump(e)[:160])})"
+
+    def stmt(self, s: ast.stmt) -> str:
+        if isinstance(s, ast.Assign) and len(s.targets) == 1:
+            t = s.targets[0]
+            if isinstance(t, ast.Name) and t.id in LVARS:
+                return f"(.assign .{LVARS[t.id]} {self.exp(s.value)})"
+            if (isinstance(t, ast.Tuple) and len(t.elts) == 2 and all(isinstance(x, ast.Name) and x.id in LVARS for x in t.elts)):
+                return f"(.assign2 .{LVARS[t.elts[0].id]} .{LVARS[t.elts[1].id]} {self.exp(s.value)})"
+            if isinstance(t, ast.Subscript) and isinstance(t.value, ast.Name) and t.value.id in LVARS:
+                return f"(.setItem .{LVARS[t.value.id]} {self.exp(t.slice)} {self.exp(s.value)})"
+        if isinstance(s, ast.AnnAssign) and isinstance(s.target, ast.Name) and s.target.id in LVARS and s.value is not None:
+            return f"(.assign .{LVARS[s.target.id]} {self.exp(s.value)})"
+        if isinstance(s, ast.If):
+            return f"(.ite {self.exp(s.test)} {self.block(s.body)} {self.block(s.orelse)})"
+        if isinstance(s, ast.For) and not s.orelse:
+            t = s.target
+            if isinstance(t, ast.Name) and t.id in LVARS:
+                return f"(.forIn .{LVARS[t.id]} {self.exp(s.iter)} {self.block(s.body)})"
+            if isinstance(t, ast.Tuple) and len(t.elts) == 2 and all(isinstance(x, ast.Name) and x.id in LVARS for x in t.elts):
+                return f"(.forIn2 .{LVARS[t.elts[0].id]} .{LVARS[t.elts[1].id]} {self.exp(s.iter)} {self.block(s.body)})"
+        if isinstance(s, ast.Return) and s.value is not None:
+            return f"(.ret {self.exp(s.value)})"
+        if isinstance(s, ast.Expr) and isinstance(s.value, ast.Call):
+            c = s.value
+            if (isinstance(c.func, ast.Attribute) and c.func.attr in ("append", "extend") and isinstance(c.func.value, ast.Name)
+                    and c.func.value.id in LVARS and len(c.args) == 1 and not c.keywords):
+                return f"(.{c.func.attr} .{LVARS[c.func.value.id]} {self.exp(c.args[0])})"
+            return f"(.expr {self.exp(c)})"
+        return f"(.unsupported {lstr(ast.dump(s)[:160])})"
+
+    def block(self, body: List[ast.stmt]) -> str:
+        body = [s for s in body if not (isinstance(s, ast.Expr) and isinstance(s.value, ast.Constant))]
+        return "[" + ", ".join(self.stmt(s) for s in body) + "]"
+
+
+def render_list() -> str:
+    tree = ast.parse(open(os.path.join(PKG, "list.py")).read())
+    bodies = {"listSync": '[.unsupported "not found"]', "listAsync": '[.unsupported "not found"]'}
+    init = "<not found>"
+    for node in tree.body:
+        if isinstance(node, ast.ClassDef) and node.name == "ListValidator":
+            for item in node.body:
+                if isinstance(item, ast.FunctionDef) and item.name == "_validate_to_tuple":
+                    bodies["listSync"] = LTr().block(item.body) if [a.arg for a in item.args.args] == ["self", "val"] else '[.unsupported "signature"]'
+                if isinstance(item, ast.AsyncFunctionDef) and item.name == "_validate_to_tuple_async":
+                    bodies["listAsync"] = LTr().block(item.body) if [a.arg for a in item.args.args] == ["self", "val"] else '[.unsupported "signature"]'
+                if isinstance(item, ast.FunctionDef) and item.name == "__init__":
+                    init = " ; ".join(ast.unparse(b) for b in item.body if not (isinstance(b, ast.Expr) and isinstance(b.value, ast.Constant)))
+    # the two wrappers of the item validator (`_internal.py`), pinned text
+    itree = ast.parse(open(os.path.join(PKG, "_internal.py")).read())
+    wraps = []
+    for node in itree.body:
+        if isinstance(node, ast.FunctionDef) and node.name in ("_wrap_sync_validator", "_wrap_async_validator"):
+            wraps.append(node.name + ": " + " ; ".join(ast.unparse(b).replace("\n", " ") for b in node.body))
+    lines = ["/- GENERATED by harness/pysrc.py from the current source of /repo/koda_validate/list.py — do not edit -/",
+             "import KodaModel.PyList", "", "namespace Koda.Src", ""]
+    for k, v in bodies.items():
+        lines += [f"def {k} : List LStmt :=", f"  {v}", ""]
+    lines += ["/-- `ListValidator.__init__` -/", f"def listInit : String := {lstr(init)}", "",
+              "/-- `_wrap_sync_validator` / `_wrap_async_validator` -/",
+              "def listWraps : List String := [" + ", ".join(lstr(w) for w in sorted(wraps)) + "]", "", "end Koda.Src", ""]
+    return "\n".join(lines)
+
+
 def render() -> str:
     found = collect()
     lines = ["/- GENERATED by harness/pysrc.py from the current source of /repo/koda_validate — do not edit -/",
@@ -471,7 +605,7 @@ def render() -> str:
 
 def regenerate() -> bool:
     changed = False
-    for path, new in ((OUT, render()), (OUT_COERCE, render_coerce()), (OUT_SCALAR, render_scalar()), (OUT_UNION, render_union())):
+    for path, new in ((OUT, render()), (OUT_COERCE, render_coerce()), (OUT_SCALAR, render_scalar()), (OUT_UNION, render_union()), (OUT_LIST, render_list())):
         old = open(path).read() if os.path.exists(path) else None
         if new != old:
             with open(path, "w") as f:
